@@ -24,7 +24,7 @@ TOKENS = [
     ('electronic', 'electronic'), ('placeholder', 'placeholder'), ('constant', 'constant'),
     ('FreeTrans', 'FreeTrans'), ('HarmonicVib', 'HarmonicVib'), ('QRRHOVib', 'QRRHOVib'),
     ('EinsteinVib', 'EinsteinVib'), ('DebyeVib', 'DebyeVib'), ('RigidRotor', 'RigidRotor'),
-    ('GroundStateElec', 'GroundStateElec'), ('LSR', 'LSR'), ('EmptyNucl', 'EmptyNucl'),
+    ('GroundStateElec', 'GroundStateElec'), ('LSR', 'LSR'), ('ExtendedLSR', 'ExtendedLSR'), ('EmptyNucl', 'EmptyNucl'),
     ('EmptyMode', 'EmptyMode'),
     # qualified class names (module + '.' + qualname of the class object)
     ('Q_StatMech', 'pmutt.statmech.StatMech'), ('Q_EmptyMode', 'pmutt.statmech.EmptyMode'),
@@ -36,7 +36,7 @@ TOKENS = [
     ('Q_DebyeVib', 'pmutt.statmech.vib.DebyeVib'),
     ('Q_RigidRotor', 'pmutt.statmech.rot.RigidRotor'),
     ('Q_GroundStateElec', 'pmutt.statmech.elec.GroundStateElec'),
-    ('Q_LSR', 'pmutt.statmech.lsr.LSR'),
+    ('Q_LSR', 'pmutt.statmech.lsr.LSR'), ('Q_ExtendedLSR', 'pmutt.statmech.lsr.ExtendedLSR'),
     ('Q_EmptyNucl', 'pmutt.statmech.nucl.EmptyNucl'),
     # header and cell texts used by the bounded configurations (MC_ExcelReader.tla)
     ('H_name', 'name'), ('H_A', 'A'), ('H_potentialenergy_pad', ' potentialenergy '), ('H_phase', 'phase'),
